@@ -66,8 +66,8 @@ IsComplement(a, b) == ComplEnds(a, b) /\ a.ovs[1] = Complement(b.ovs[1])
 Required(p) ==
   LET n == Len(p.refs)
       undef == p.f[1] = "*"
-      circ == ~undef /\ n > 1 /\ Len(p.ovs) = n
-      m == IF n = 1 THEN 0 ELSE IF circ THEN n ELSE n - 1 IN
+      circ == ~undef /\ Len(p.ovs) = n           \* as many overlaps as segments: the path closes
+      m == IF circ THEN n ELSE n - 1 IN
   [i \in 1..m |-> [a |-> p.refs[i],
                    b |-> p.refs[IF i = n THEN 1 ELSE i + 1],
                    cg |-> IF undef \/ i > Len(p.ovs) THEN <<>> ELSE p.ovs[i]]]
@@ -530,10 +530,18 @@ AddClone(st, id, new) ==
     ELSE Add(st, [t EXCEPT !.name = new])
 
 Step(st, op) ==
-  CASE op.k = "add"   -> Add(st, op.l)
+  CASE op.k = "add" /\ op.id2 = "invalid" ->
+         \* a line the grammar does not allow (decided outside this specification, C04): refused and
+         \* nothing changes, whatever it mentions; at level 0 the checks are skipped
+         IF st.vlevel = 0 THEN {Unmodelled(st)} ELSE {Fail(st, "Error")}
+    [] op.k = "add"   -> Add(st, op.l)
     [] op.k = "addcl" -> AddClone(st, op.id, op.id2)
     \* an object that was superseded (a placeholder, an earlier line of a multi-line group) is renamed
     \* through a handle the caller kept: it does not belong to the Gfa any more, nothing changes
+    \* conversion to GFA2 text: by design it gives the unnamed links and containments of the source an
+    \* ID tag (C06, "edge identifiers"); which identifiers is not specified here -- the clauses that
+    \* relate the observation to itself (registry, topology) go on
+    [] op.k = "tog2" -> {Unmodelled(st)}
     [] op.k = "stale" -> {Ok(st), Fail(st, "NotFoundError"), Fail(st, "Error")}
     [] op.k = "addc"  -> AddConnected(st, op.l)
     [] op.k = "setf"  -> SetField(st, op.ls[1], op.ls[2], op.n, op.id2)
